@@ -90,6 +90,17 @@ theorem updateQ_step (rops aops : List Op) (L L' : List Nat)
     simp only [h1, Option.bind_some] at h
     rw [updateQ_removes rops L L1 aops hr h1, updateQ_adds _ aops ha, replay_adds aops L1 L' ha h]
 
+/-- the queue of `L` replays to `L` -/
+theorem replay_addsFrom : ∀ (L B : List Nat), replay (addsFrom B.length L) B = some (B ++ L)
+  | [], B => by simp [addsFrom, replay]
+  | x :: r, B => by
+      have := replay_addsFrom r (B ++ [x])
+      simp only [List.length_append, List.length_singleton, List.append_assoc, List.singleton_append] at this
+      simp [addsFrom, replay, replayOp, this]
+
+theorem replay_addsOf (L : List Nat) : replay (addsOf L) [] = some L := by
+  simpa [addsOf] using replay_addsFrom L []
+
 /-! ### the ops of `add_headers` are removes followed by adds -/
 
 theorem removeOps_isRemove (bc : BC) (size : Int) : ∀ (path : List Nat) (idx : Nat) (m m' : Dict Int) (ops : List Op),
